@@ -1,6 +1,7 @@
 import RzmqModel.Model.Pool
 import RzmqModel.Props.C04
 import RzmqModel.Proofs.Pool
+import RzmqModel.Model.Tracker
 /-!
 # C20 — the io_uring backend is observably equivalent to the Tokio backend
 
@@ -72,5 +73,47 @@ theorem oversize_never_takes_a_buffer (p : Pool) (len : Nat) (h : p.cap < len) :
   have hz : ¬ len = 0 := by omega
   have hlt : ¬ len ≤ p.cap := by omega
   cases hf : p.free <;> simp [Pool.step, hf, hz, hlt]
+
+-- the worker's table of operations in the kernel -------------------------------------------------------------------------------------
+
+/-- the shape of the sources (re-extracted on every run) -/
+theorem op_table_shape :
+    Gen.uringCloseKeepsAllInflightOps = 1 ∧ Gen.uringCompletionLookupByKind = 1 ∧ Gen.uringNotificationKeepsSlot = 1
+    ∧ Gen.uringOrphanCompletionGivesBufferBack = 1 := by
+  decide
+
+theorem current_table_is_the_proved_one : currentTrkCfg = { close := .keepAll, byKind := true, keepsSlot := true } := by decide
+
+/-- non-vacuity: a history with a close in the middle of everything -/
+example : (TrkSys.run currentTrkCfg {} [.submit 5 .send, .submit 5 .read, .submit 5 (.zc 3), .first 2, .submit 6 (.zc 4),
+    .closeFd 5, .submit 5 .vec, .final 2, .final 1, .final 0]).kernel.map (·.op.kind) = [.zc 4, .vec] := by decide
+
+/-- the first earlier shape (everything tracked for the descriptor was dropped at CloseFd): the send is still in the kernel,
+its buffers are gone -/
+theorem dropping_at_close_frees_inflight_buffers :
+    let s := TrkSys.run { close := .dropAll, byKind := true, keepsSlot := true } {} [.submit 5 .send, .closeFd 5]
+    s.kernel.length = 1 ∧ s.kernel.all (fun ko => !s.holds ko) = true := by
+  decide
+
+/-- the second earlier shape (only sends were kept): the key of a forgotten read is given to a new send, and the read's late
+completion is processed with the send's entry - whose buffers are then freed while the kernel still reads them -/
+theorem keeping_only_sends_misattributes :
+    let s := TrkSys.run { close := .keepSends, byKind := true, keepsSlot := true } {} [.submit 5 .read, .closeFd 5, .submit 6 .send, .final 0]
+    s.misattributed ≠ [] ∧ s.kernel.all (fun ko => !s.holds ko) = true ∧ s.kernel.length = 1 := by
+  decide
+
+/-- the earlier lookup (slab first, whatever the completion is): the notification of a zero-copy send whose key has been
+reused releases the buffer of the NEW send -/
+theorem slab_first_lookup_misattributes_notifications :
+    (TrkSys.run { close := .keepAll, byKind := false, keepsSlot := false } {} [.submit 5 (.zc 3), .first 0, .submit 6 (.zc 4), .final 0]).misattributed ≠ [] := by
+  decide
+
+/-- … and looking a notification up where notifications wait was not enough while a send's slab key was vacated at its first
+completion: the next zero-copy send is given the same `user_data`, its entry REPLACES the one still waiting, and the first
+send's registered buffer is no longer owned by anybody although the kernel still uses it (found by the proof attempt) -/
+theorem vacated_slot_lets_two_sends_share_a_user_data :
+    let s := TrkSys.run { close := .keepAll, byKind := true, keepsSlot := false } {} [.submit 5 (.zc 3), .first 0, .submit 5 (.zc 4), .first 1]
+    s.kernel.map (·.key) = [0, 0] ∧ s.kernel.any (fun ko => !s.holds ko) = true := by
+  decide
 
 end Rzmq.C20
